@@ -4,46 +4,10 @@
 -/
 import Y0.Model.IdStar
 import Y0.Props.C18
+import Y0.Lemmas.CfBasic
 
 namespace Y0
 open MG
-
-/-! ### generic list facts -/
-
-theorem length_insertBy {α} (lt : α → α → Bool) (x : α) (l : List α) : (insertBy lt x l).length = l.length + 1 := by
-  induction l with
-  | nil => rfl
-  | cons y ys ih =>
-    simp only [insertBy]
-    split
-    · simp
-    · simp [ih]
-
-theorem length_sortBy {α} (lt : α → α → Bool) (l : List α) : (sortBy lt l).length = l.length := by
-  induction l with
-  | nil => rfl
-  | cons x xs ih => simp [sortBy, List.foldr_cons, length_insertBy] at ih ⊢; exact ih
-
-theorem mem_insertBy {α} (lt : α → α → Bool) (x a : α) (l : List α) : a ∈ insertBy lt x l ↔ a = x ∨ a ∈ l := by
-  induction l with
-  | nil => simp [insertBy]
-  | cons y ys ih =>
-    simp only [insertBy]
-    split
-    · simp
-    · simp only [List.mem_cons, ih]; tauto
-
-theorem mem_sortBy {α} (lt : α → α → Bool) (a : α) (l : List α) : a ∈ sortBy lt l ↔ a ∈ l := by
-  induction l with
-  | nil => simp [sortBy]
-  | cons x xs ih =>
-    have : sortBy lt (x :: xs) = insertBy lt x (sortBy lt xs) := rfl
-    rw [this, mem_insertBy, ih]; simp
-
-theorem dedup'_ne_nil {α} [DecidableEq α] (l : List α) (h : l ≠ []) : dedup' l ≠ [] := by
-  cases l with
-  | nil => exact absurd rfl h
-  | cons x xs => simp [dedup']
 
 /-! ### `mapM` in `Except` -/
 
